@@ -308,6 +308,9 @@ func (f *fakeStream) SendMsg(m any) error {
 	out := &pubsubpb.StreamingPullResponse{}
 	_ = proto.Unmarshal(b, out)
 	f.sent(out)
+	// the client has the frame now and may react (ack on the stream) before the server's
+	// sender goroutine gets to run again
+	S.Yield(f.ctx, "sent")
 	return nil
 }
 func (f *fakeStream) RecvMsg(m any) error {
